@@ -27,13 +27,16 @@ func genC11Hammer(seed uint64, r *rng) *Scenario {
 	kinds := [][]int{{OpReplace}, {OpReplace, OpReplaceAt}, {OpMatchString, OpMatchRunes}, {OpFindString, OpFindRunes, OpWalk2}, {OpFindAllString, OpFindAllRunes},
 		{OpSplit, OpReplaceFunc}, {OpReplace, OpMatchString, OpFindAllString}, {OpCompatAllSubmatch, OpCompatAllIndex, OpCompatSubmatchIndex},
 		{OpEngine}, {OpMarshalRoundTrip, OpEngine}, {OpMarshalRoundTrip, OpMatchString}}[r.n(11)]
-	nin := 1 + r.n(2)
+	nin := 1 + r.n(3)
 	ins := make([]InputSpec, nin)
 	for i := range ins {
 		ins[i] = genInput(r, pp, r.chance(1, 3))
 	}
 	nrep := 1 + r.n(3)
 	off := r.n(len(repls))
+	if r.chance(1, 3) {
+		off = replSpecial[r.n(len(replSpecial))] // one shared parse of a string with $` $' $_ $+, different inputs at once
+	}
 	ncl := 3 + r.n(2)
 	est := int64(0)
 	for c := 0; c < ncl; c++ {
